@@ -32,6 +32,16 @@ CHECKS = {
          "All lists of length <=3/4 over 9 elements (one per type, nested list and map included) in 3 forms (folded literal, literal of bound variables, bound) with value, size and l[i] for every int in [-size-2, size+2], the int/uint extremes, every uint up to size+1 and 8 non-integer indices (literal and bound); membership of 17 probes in every list of length <=2; all ordered pairs of lists of length <=2 under +; all map literals with <=3/4 entries over keys {a, b, ''} with repetition in n+4 forms (constant, each single value variable, all values variable, variable keys, bound map) with m[k], m.k, k in m for present, absent and non-string keys; substring-in, + and size for all strings of length <=3/4 over {a, b, e-acute} x needles of length <=2; bytes pairs; `in` and `+` over all ordered pairs of one value per type outside their domains. Complete for these bounds only.",
          "Trusted: the Vec/BTreeMap reference in c06.rs. Membership across numeric types, indexing of strings/bytes and size of maps are not fixed by the statement.",
          "DESIGN.md section 3, C06"),
+ "C07": ("exploration",
+         "bounded exhaustive enumeration of (list, macro form, body) cells with call-recording bodies against the defining folds; every insertion order and construction path of small maps for the key-order part",
+         "All lists of length <=5/6 over {0,1,2}, all 0/1 lists up to length 8/10 and lists of length 16..64 (thorough: every length 11..64) with at most one/two 1s x 74 macro forms (all, exists, exists_one, filter x 11 bodies; map/2 x 4; map/3 x 20; reduce x 6 - bodies read the loop variable, an outer variable, a stored program, inner macros re-using the name or reading the outer loop variable, a call-recording function, fail at one element, or read an unbound name) x literal/bound list x outer binding of the loop-variable name absent/100 x the name read before/after the macro: result and exact call log (visiting order, stopping point) equal the fold; caller's binding unchanged. Every non-empty subset of 4 keys x 5 map macro forms with the map built in every insertion order by 4 construction paths, twice: one fixed key order. Complete for these bounds only.",
+         "Trusted: the folds in c07.rs. Sortedness of the key order is not demanded.",
+         "DESIGN.md section 3, C07"),
+ "C08": ("exploration",
+         "bounded exhaustive enumeration of field paths x binding configurations x contexts and of coalesce argument lists with call-recording arguments against a two-class (absent / other failure) lattice",
+         "Field paths of depth 0..4 in 4 spellings x every binding configuration (chain stops at any level: root unbound, field missing, null, int, string, list, empty map; or reaches a null/value/map leaf) x has() in 9 contexts and through a loop variable and coalesce(e, 'dflt') in 5 contexts and through a loop variable; every coalesce argument list of length 0..4/5 over 14 item kinds (present, null, unbound, missing field/index, null field, foldable and run-time division by zero, type error, bad index, call-recording present/null) in 4 contexts with the exact set of evaluated arguments; has() over each item. Complete for these bounds only.",
+         "A field looked up on a non-map value may count as absent or other; only consistency between has, coalesce and all contexts is demanded there.",
+         "DESIGN.md section 3, C08"),
  "C13": ("exploration",
 
          "bounded exhaustive enumeration of literal spellings whose denoted value the generator knows by construction",
